@@ -103,6 +103,7 @@ func isIdentifierPart(chr rune) bool {
 	return chr == '$' || chr == '_' || chr == '\\' ||
 		'a' <= chr && chr <= 'z' || 'A' <= chr && chr <= 'Z' ||
 		'0' <= chr && chr <= '9' ||
+		chr == '\u200c' || chr == '\u200d' || // 7.6: <ZWNJ> and <ZWJ>
 		chr >= utf8.RuneSelf && unicodeIDContinue(chr)
 }
 
@@ -624,7 +625,7 @@ func (p *parser) scanString(offset int) (string, error) {
 		p.read()
 		switch {
 		case chr == '\\':
-			if quote == '/' {
+			if quote == '/' || quote == -1 { // -1: inside a character class of a regular expression
 				if p.chr == '\n' || p.chr == '\r' || p.chr == '\u2028' || p.chr == '\u2029' || p.chr < 0 {
 					goto newline
 				}
